@@ -330,6 +330,23 @@ def audit(prop_modules, workdir):
     return per, problems
 
 
+def run_translators(cfg, sc, work):
+    """Regenerate Gen/*.lean from the scratch copy of the current tree.
+    Returns (gen_info, broken, notes)."""
+    gen_info, broken, notes = {}, [], []
+    for tr in getattr(cfg, 'TRANSLATORS', []):
+        cmd = [PY, os.path.join(ROOT, 'translate', tr), '--repo', sc.repo,
+               '--out', os.path.join(LEAN, 'PysphVerif', 'Gen')]
+        p = subprocess.run(cmd, env=sc.env, cwd=work, stdout=subprocess.PIPE,
+                           stderr=subprocess.STDOUT, text=True)
+        gen_info[tr] = p.stdout[-1500:]
+        if p.returncode != 0:
+            broken.append('translator:%s' % tr)
+            notes.append('translator %s failed on the current source: %s'
+                         % (tr, p.stdout[-800:]))
+    return gen_info, broken, notes
+
+
 def driver_target(model):
     return 'model_' + model.lower()
 
